@@ -275,6 +275,12 @@ def run_(ctx):
                    for u in sorted({e[1] for f in table["functions"] for e in f["events"]})},
         "helpers": table["helpers"], "thread_local_handler": table["thread_local"],
     }
+    # ---- parts of the source the translator could not read: the theorems fail on their markers;
+    #      the dynamic probes below still run and look for a concrete failing call
+    unread = {f["name"]: f["unreadable"] for f in table["functions"] if f.get("unreadable")}
+    unrec = {h: x.get("why", "") for h, x in table["helpers"].items() if h != "handler" and not (x.get("recognised") and x.get("guard_plain"))}
+    if unread or unrec:
+        ctx.cov["translator_unrecognised"] = {"wrappers": unread, "helpers": unrec}
     # ---- exported symbols of the built library = rows of the table
     lib = os.path.join(bdir, "primitiv", "libprimitiv_c.so")
     rc, out = pv.sh("nm -D --defined-only %s" % lib)
@@ -319,7 +325,7 @@ def run_(ctx):
             ctx.violation("sqlen", {"kind": "size-query", "case": "sqlen " + f, "impl": l, "witness": "capi size-query :: sqlen %s" % f,
                                     "impl_driver": impl}, True, "size query of %s: `%s`" % (f, l))
             continue
-        for mode in ("null", "short", "exact", "larger"):
+        for mode in ("null", "zero", "one", "short", "exact", "larger"):
             sq_cases.append("sq %s %s %s" % (f, m.group(1), mode))
     dist["size-query-cases"] = len(sq_cases)
     ctx.cov["size_query_functions"] = dict(zip(sqf, lens))
@@ -384,9 +390,13 @@ def run_(ctx):
         if not found and not any(fi for (_, fi, _) in ctx.violations):
             rc, dg = pv.run_lines(model, ["diag " + f["name"] for f in table["functions"]])
             rows = {f["name"]: d for f, d in zip(table["functions"], dg) if d != "-"}
-            ctx.proof_broken(extra={"offending_rows": rows, "helpers": table["helpers"]})
+            ctx.proof_broken(extra={"offending_rows": rows, "helpers": table["helpers"], "translator_unrecognised": {"wrappers": unread, "helpers": unrec}})
+    elif unread or unrec:
+        ctx.violation("translator", {"kind": "translator-unrecognised", "wrappers": unread, "helpers": unrec,
+                                     "witness": "capi translator :: unrecognised " + ",".join(sorted(list(unread) + list(unrec)))}, False,
+                      "the translator did not recognise %s although the theorems still check" % sorted(list(unread) + list(unrec)))
     ctx.cov["rule"] = ("cases = for EVERY exported wrapper of the regenerated table: one call with valid fixture objects, one call per pointer parameter with NULL there, one per pointer-array parameter with a NULL element (expected result = extracted Coq model over the table); "
-                       "for every scalar parameter the values 0 / 2^32-1 / -1.0f / NaN / inf (rule: OK or ERROR, never a null complaint or a crash); size-query protocol (NULL, size-1, exact, larger) on every array/string returning function against the executable specification and the C++ twin's data; "
+                       "for every scalar parameter the values 0 / 2^32-1 / -1.0f / NaN / inf (rule: OK or ERROR, never a null complaint or a crash); size-query protocol (NULL buffer; non-NULL buffer with capacity 0, 1, size-1, exact, larger) on every array/string returning function against the executable specification and the C++ twin's data; "
                        "random operation sequences over 1-3 threads (failing calls, succeeding calls, GetMessage variants, ResetStatus) against the extracted handler model; boundary values of shape / optimizer / tensor functions against the C++ twin; "
                        "non-trivial = cases on which the implementation produced a status (not a harness failure)")
     ctx.cov["input_distribution"] = dist
